@@ -26,6 +26,7 @@ pub mod c20;
 pub mod decgen;
 pub mod impls;
 pub mod realcodes;
+pub mod warm;
 
 pub fn property(id: &str, ctx: &Ctx) -> Option<Property> {
     let _ = ctx;
